@@ -50,11 +50,13 @@ def decl_specs(tier):
     if tier == 'thorough':
         red = ['i1', 'b35', 'b17', 'dn', 'dx', 'm0', 'mab', 'rxi', 'd2']
         specs += [{'c18': [a, b, c]} for a in red for b in red for c in red + ['eos']]
+    for names in (['bc4'], ['bc4', 'i2'], ['i2', 'b323'], ['b35', 'bc4'], ['i3s', 'bc4']):
+        specs.append({'c18': names, 'opts': {'endianness': 'little'}})
     for s in specs:
         fields = []
         for i, cn in enumerate(s['c18']):
             fields.extend(COMPS[cn](i))
-        s['P'] = PKT('K', fields)
+        s['P'] = PKT('K', fields, **s.get('opts', {}))
     return specs
 
 
@@ -147,7 +149,7 @@ def check_decl(dc, st, tier, only=None):
                 st.violate('building the expression raises %s' % type(e).__name__,
                            '%s: as_regular_expression() raised %r | %s' % (what, e, srcline), case, snip)
                 continue
-            st.add('states', (tuple(dc.spec['c18']), sub, bytes(rx.pattern)))
+            st.add('states', (tuple(dc.spec['c18']), repr(dc.spec.get('opts')), sub, bytes(rx.pattern)))
             nmatch = 0
             for s, p in zip(corpus, unpacked):
                 if p is None:
